@@ -24,11 +24,22 @@ HERE="$(cd "$(dirname "$0")" && pwd)"
 if [ -z "${VERIF_ROOT_OVERRIDE:-}" ] || [ -z "${VERIF_ROOT:-}" ]; then export VERIF_ROOT="$HERE"; fi
 cd "$HERE/harness" || exit 2
 mkdir -p "$HERE/.build" "$VERIF_ROOT/evidence" "$VERIF_ROOT/replays"
-BIN="$HERE/.build/checks${RACE:+-race}.test"
+# VERIF_REPO (default /repo) lets a scratch copy of the repository be checked
+# (mutation sweeps); registered commands always use /repo.
+REPO="${VERIF_REPO:-/repo}"
+MODFLAG=""
+SUFFIX=""
+if [ "$REPO" != "/repo" ]; then
+  SUFFIX="-$(echo "$REPO" | md5sum | cut -c1-8)"
+  sed "s#=> /repo/#=> $REPO/#" go.mod > "$HERE/.build/alt$SUFFIX.mod"
+  cp go.sum "$HERE/.build/alt$SUFFIX.sum"
+  MODFLAG="-modfile=$HERE/.build/alt$SUFFIX.mod"
+fi
+BIN="$HERE/.build/checks${RACE:+-race}$SUFFIX.test"
 # Serialise concurrent builds of the same binary.
 (
   flock 9
-  go1.26.8 test -c $RACE -tags "verif rpctest" -o "$BIN" ./checks
-) 9>"$HERE/.build/.lock${RACE:+-race}" || { echo "BUILD FAILED for $ID"; exit 2; }
+  go1.26.8 test -c $RACE $MODFLAG -tags "verif rpctest" -o "$BIN" ./checks
+) 9>"$HERE/.build/.lock${RACE:+-race}$SUFFIX" || { echo "BUILD FAILED for $ID"; exit 2; }
 [ -n "$REPLAY" ] && export VERIF_REPLAY="$REPLAY"
 exec "$BIN" -test.run "^Test${ID}\$" -test.timeout 0 -test.count 1
